@@ -72,7 +72,7 @@ impl Property for C12 {
                 let mut d = dp.clone();
                 d.max_users = nu;
                 d.min_users = nu;
-                (world(d, cp.clone()), vec(pieces(10), 1..=4))
+                (world(d, cp.clone()), vec(pieces_long(10), 1..=4))
             })
             .prop_map(|((dic, cfg), texts)| Case { dic, cfg, texts })
             .boxed()
